@@ -64,6 +64,19 @@
 #define RELEASED_ONCE(cb) (gh_frees == __CPROVER_old(gh_frees) + 1 && gh_sp_disposed == __CPROVER_old(gh_sp_disposed) + 1 && \
                            gh_sp_released == __CPROVER_old(gh_sp_released) + 1 && gh_sp_last_released == (void *)(cb))
 
+/* ---- the reference-count clauses of the contracts, as predicates.  They are used VERBATIM by the enforced contracts below and by
+ * the reference lemma (h_lemma.c) - that is what makes the lemma a lemma "over the contracts".
+ *   ALIVE_WITH(n)  "the state still exists and its strong count is n"  (a macro name; instantiated per contract / by the lemma)
+ *   NOTHING / ONCE "nothing was" / "the state was" destroyed and released (exactly once) */
+#define REF_DROPPED(c0, ALIVE_WITH, NOTHING, ONCE)     ((((c0) > 1) ==> ((NOTHING) && ALIVE_WITH((c0) - 1))) && (((c0) == 1) ==> (ONCE)))
+#define REF_ADDED(c0, ALIVE_WITH)                      (ALIVE_WITH((c0) + 1))
+#define CREATED(pending, HOLDS, ALIVE_WITH)            (((pending) ==> ((HOLDS) == 1 && ALIVE_WITH(2))) && (!(pending) ==> ((HOLDS) == 0 && ALIVE_WITH(1))))
+#define TRACER_CHARGED(pend0, c0, HOLDS, ALIVE_WITH)   (((pend0) ==> ((HOLDS) == 1 && ALIVE_WITH((c0) + 1))) && (!(pend0) ==> ((HOLDS) == 0 && ALIVE_WITH(c0))))
+/* instantiations used by the contracts */
+#define CB0_ALIVE_WITH(n)  (__CPROVER_rw_ok(gh_cb0, CV_SP_BLOCK_SIZE) && gh_cb0->strong == (n) && SI(gh_cb0))
+#define CB1_ALIVE_WITH(n)  (__CPROVER_rw_ok(gh_cb1, CV_SP_BLOCK_SIZE) && gh_cb1->strong == (n) && SI(gh_cb1))
+#define THIS_ALIVE_WITH(n) (H_LIVE(this_) && H_CB(this_)->strong == (n) && SI(H_CB(this_)))
+
 /* logical variables */
 struct cv_sp_cb *gh_cb0, *gh_cb1; FI *gh_obj0; cv_i64 gh_c0, gh_c1; int gh_pend0, gh_tr0, gh_alias; AWT *gh_slot0;
 
@@ -172,9 +185,10 @@ __CPROVER_requires(gh_slot0 == SLOT(CB_FI(gh_cb0)) && gh_pend0 == (SLOT(CB_FI(gh
 __CPROVER_assigns(__CPROVER_object_whole(gh_cb0), GH_SUB)
 __CPROVER_ensures(cv_exc_pending == 0 && gh_allocs == __CPROVER_old(gh_allocs) && gh_frees == __CPROVER_old(gh_frees))
 __CPROVER_ensures(gh_sub_calls == 1 && gh_sub_last == TR_AW(CB_FI(gh_cb0)))                                     /* exactly one subscription attempt, of the tracer */
-__CPROVER_ensures(gh_pend0 ==> (gh_sub_ok == 1 && TR_SELF(CB_FI(gh_cb0), gh_cb0) && gh_cb0->strong == gh_c0 + 1)) /* pending: subscribed and ONE extra reference */
+__CPROVER_ensures(TRACER_CHARGED(gh_pend0, gh_c0, TRC(gh_cb0), CB0_ALIVE_WITH))                                  /* pending: ONE extra reference; resolved: none */
+__CPROVER_ensures(gh_sub_ok == (gh_pend0 ? 1 : 0))                                                              /* the reference exists iff the tracer got subscribed */
 __CPROVER_ensures(gh_pend0 ==> (SLOT(CB_FI(gh_cb0)) == TR_AW(CB_FI(gh_cb0)) && TR_AW(CB_FI(gh_cb0))->_next == gh_slot0))
-__CPROVER_ensures(!gh_pend0 ==> (gh_sub_ok == 0 && TR_EMPTY(CB_FI(gh_cb0)) && gh_cb0->strong == gh_c0 && SLOT(CB_FI(gh_cb0)) == AW_DISABLED)) /* resolved: no reference kept */
+__CPROVER_ensures(!gh_pend0 ==> (TR_EMPTY(CB_FI(gh_cb0)) && SLOT(CB_FI(gh_cb0)) == AW_DISABLED))
 __CPROVER_ensures(TR_AW(CB_FI(gh_cb0))->_resume_fn == tr_invoke)                                                /* what resolution will call */
 ;
 #endif
@@ -192,8 +206,8 @@ __CPROVER_assigns(__CPROVER_object_whole(ret), __CPROVER_object_whole(gh_cb0), G
 __CPROVER_frees(gh_cb0)
 __CPROVER_ensures(cv_exc_pending == 0 && gh_allocs == __CPROVER_old(gh_allocs))
 __CPROVER_ensures(ret->_count_flag == 0)                                                      /* resumes nothing */
-__CPROVER_ensures(gh_c0 > 1 ==> (NOTHING_RELEASED && __CPROVER_rw_ok(gh_cb0, CV_SP_BLOCK_SIZE) && gh_cb0->strong == gh_c0 - 1 && TR_EMPTY(CB_FI(gh_cb0)) && SI(gh_cb0)))
-__CPROVER_ensures(gh_c0 == 1 ==> RELEASED_ONCE(gh_cb0))                                     /* every handle already gone: the tracer frees the state */
+__CPROVER_ensures(REF_DROPPED(gh_c0, CB0_ALIVE_WITH, NOTHING_RELEASED, RELEASED_ONCE(gh_cb0)))  /* exactly the tracer's reference; every handle already gone: the tracer frees the state */
+__CPROVER_ensures(gh_c0 > 1 ==> TR_EMPTY(CB_FI(gh_cb0)))
 ;
 #endif
 
@@ -210,8 +224,7 @@ __CPROVER_frees(H_CB(this_))
 __CPROVER_ensures(cv_exc_pending == 0 && gh_allocs == __CPROVER_old(gh_allocs))
 __CPROVER_ensures(gh_cb0 == 0 ==> NOTHING_RELEASED)
 __CPROVER_ensures((gh_cb0 != 0 && gh_pend0) ==> gh_c0 > 1)                                   /* pending => never the last reference */
-__CPROVER_ensures((gh_cb0 != 0 && gh_c0 > 1) ==> (NOTHING_RELEASED && __CPROVER_rw_ok(gh_cb0, CV_SP_BLOCK_SIZE) && gh_cb0->strong == gh_c0 - 1 && SI(gh_cb0)))
-__CPROVER_ensures((gh_cb0 != 0 && gh_c0 == 1) ==> RELEASED_ONCE(gh_cb0))
+__CPROVER_ensures(gh_cb0 != 0 ==> REF_DROPPED(gh_c0, CB0_ALIVE_WITH, NOTHING_RELEASED, RELEASED_ONCE(gh_cb0)))
 ;
 #endif
 
@@ -225,7 +238,7 @@ __CPROVER_assigns(__CPROVER_object_whole(this_))
 __CPROVER_assigns(H_CB(src) != 0: H_CB(src)->strong)
 __CPROVER_ensures(cv_exc_pending == 0 && gh_allocs == __CPROVER_old(gh_allocs) && gh_frees == __CPROVER_old(gh_frees))
 __CPROVER_ensures(H_CB(this_) == gh_cb0 && H_OBJ(this_) == gh_obj0 && H_CB(src) == gh_cb0 && H_OBJ(src) == gh_obj0)     /* both refer to the one shared state */
-__CPROVER_ensures(gh_cb0 != 0 ==> (gh_cb0->strong == gh_c0 + 1 && SI(gh_cb0) && gh_cb0->strong >= 2 + TRC(gh_cb0)))
+__CPROVER_ensures(gh_cb0 != 0 ==> (REF_ADDED(gh_c0, CB0_ALIVE_WITH) && gh_cb0->strong >= 2 + TRC(gh_cb0)))
 ;
 #endif
 
@@ -252,10 +265,9 @@ __CPROVER_assigns(H_CB(src) != 0: H_CB(src)->strong)
 __CPROVER_frees(H_CB(this_))
 __CPROVER_ensures(cv_exc_pending == 0 && gh_allocs == __CPROVER_old(gh_allocs) && __CPROVER_return_value == this_)
 __CPROVER_ensures(H_CB(this_) == gh_cb1 && H_OBJ(this_) == gh_obj0 && H_CB(src) == gh_cb1 && H_OBJ(src) == gh_obj0)     /* shares src's state */
-__CPROVER_ensures((gh_cb1 != 0 && gh_cb1 != gh_cb0) ==> (gh_cb1->strong == gh_c1 + 1 && SI(gh_cb1)))
+__CPROVER_ensures((gh_cb1 != 0 && gh_cb1 != gh_cb0) ==> REF_ADDED(gh_c1, CB1_ALIVE_WITH))
 __CPROVER_ensures((gh_cb1 != 0 && gh_cb1 == gh_cb0) ==> (gh_cb1->strong == gh_c1 && NOTHING_RELEASED))
-__CPROVER_ensures((gh_cb0 != 0 && gh_cb0 != gh_cb1 && gh_c0 > 1) ==> (NOTHING_RELEASED && __CPROVER_rw_ok(gh_cb0, CV_SP_BLOCK_SIZE) && gh_cb0->strong == gh_c0 - 1 && SI(gh_cb0)))
-__CPROVER_ensures((gh_cb0 != 0 && gh_cb0 != gh_cb1 && gh_c0 == 1) ==> RELEASED_ONCE(gh_cb0))
+__CPROVER_ensures((gh_cb0 != 0 && gh_cb0 != gh_cb1) ==> REF_DROPPED(gh_c0, CB0_ALIVE_WITH, NOTHING_RELEASED, RELEASED_ONCE(gh_cb0)))
 __CPROVER_ensures(gh_cb0 == 0 ==> NOTHING_RELEASED)
 ;
 #endif
@@ -271,9 +283,10 @@ __CPROVER_ensures(cv_exc_pending == 0)
 __CPROVER_ensures(gh_allocs == __CPROVER_old(gh_allocs) + 1 && gh_sp_made == __CPROVER_old(gh_sp_made) + 1 && gh_frees == __CPROVER_old(gh_frees))
 __CPROVER_ensures(H_LIVE(this_))
 __CPROVER_ensures(gh_env_calls == 1 && gh_env_owner == FUT_OF(H_OBJ(this_)))                  /* promise bound to the shared state */
-__CPROVER_ensures(gh_env_choice == 0 ==> (IS_PENDING(H_OBJ(this_)) && TR_SELF(H_OBJ(this_), H_CB(this_)) && H_CB(this_)->strong == 2))
+__CPROVER_ensures(CREATED(gh_env_choice == 0, TRC(H_CB(this_)), THIS_ALIVE_WITH))                /* pending: handle + tracer; resolved inside: the handle only */
+__CPROVER_ensures((gh_env_choice == 0) == (IS_PENDING(H_OBJ(this_)) ? 1 : 0))
 __CPROVER_ensures(gh_env_choice == 0 ==> (SLOT(H_OBJ(this_)) == TR_AW(H_OBJ(this_)) && TR_AW(H_OBJ(this_))->_next == 0 && TR_AW(H_OBJ(this_))->_resume_fn == tr_invoke))
-__CPROVER_ensures(gh_env_choice != 0 ==> (IS_READY(H_OBJ(this_)) && TR_EMPTY(H_OBJ(this_)) && H_CB(this_)->strong == 1))   /* resolved in the ctor: no extra reference */
+__CPROVER_ensures(gh_env_choice != 0 ==> (IS_READY(H_OBJ(this_)) && TR_EMPTY(H_OBJ(this_))))
 __CPROVER_ensures(gh_env_choice == 1 ==> (STATE(H_OBJ(this_)) == ST_VALUE && VALUE(H_OBJ(this_)) == gh_env_val))
 __CPROVER_ensures(gh_env_choice == 2 ==> STATE(H_OBJ(this_)) == ST_NOT_VALUE)
 __CPROVER_ensures(SI(H_CB(this_)))
@@ -290,9 +303,10 @@ __CPROVER_ensures(cv_exc_pending == 0)
 __CPROVER_ensures(gh_allocs == __CPROVER_old(gh_allocs) + 1 && gh_sp_made == __CPROVER_old(gh_sp_made) + 1 && gh_frees == __CPROVER_old(gh_frees))
 __CPROVER_ensures(H_LIVE(this_))
 __CPROVER_ensures(gh_env_calls == 1 && gh_env_owner == FUT_OF(H_OBJ(this_)))                  /* the result is constructed in the shared state */
-__CPROVER_ensures(gh_env_choice == 0 ==> (IS_PENDING(H_OBJ(this_)) && TR_SELF(H_OBJ(this_), H_CB(this_)) && H_CB(this_)->strong == 2))
+__CPROVER_ensures(CREATED(gh_env_choice == 0, TRC(H_CB(this_)), THIS_ALIVE_WITH))                /* pending: handle + tracer; resolved inside: the handle only */
+__CPROVER_ensures((gh_env_choice == 0) == (IS_PENDING(H_OBJ(this_)) ? 1 : 0))
 __CPROVER_ensures(gh_env_choice == 0 ==> (SLOT(H_OBJ(this_)) == TR_AW(H_OBJ(this_)) && TR_AW(H_OBJ(this_))->_next == 0 && TR_AW(H_OBJ(this_))->_resume_fn == tr_invoke))
-__CPROVER_ensures(gh_env_choice != 0 ==> (IS_READY(H_OBJ(this_)) && TR_EMPTY(H_OBJ(this_)) && H_CB(this_)->strong == 1 && gh_sub_calls == 0))
+__CPROVER_ensures(gh_env_choice != 0 ==> (IS_READY(H_OBJ(this_)) && TR_EMPTY(H_OBJ(this_)) && gh_sub_calls == 0))
 __CPROVER_ensures(gh_env_choice == 1 ==> (STATE(H_OBJ(this_)) == ST_VALUE && VALUE(H_OBJ(this_)) == gh_env_val))
 __CPROVER_ensures(SI(H_CB(this_)))
 ;
@@ -334,8 +348,8 @@ __CPROVER_assigns(__CPROVER_object_whole(ret), __CPROVER_object_whole(this_), GH
 __CPROVER_assigns(H_CB(this_) != 0: __CPROVER_object_whole(H_CB(this_)))
 __CPROVER_ensures(cv_exc_pending == 0 && gh_frees == __CPROVER_old(gh_frees) && gh_promise_drops == 0)
 __CPROVER_ensures(H_LIVE(this_))
-__CPROVER_ensures(gh_cb0 == 0 ==> (gh_allocs == __CPROVER_old(gh_allocs) + 1 && H_CB(this_)->strong == 2))           /* default-constructed: state created; handle + tracer */
-__CPROVER_ensures(gh_cb0 != 0 ==> (gh_allocs == __CPROVER_old(gh_allocs) && H_CB(this_) == gh_cb0 && H_OBJ(this_) == gh_obj0 && gh_cb0->strong == gh_c0 + 1))
+__CPROVER_ensures(gh_cb0 == 0 ==> (gh_allocs == __CPROVER_old(gh_allocs) + 1 && CREATED(1, TRC(H_CB(this_)), THIS_ALIVE_WITH)))   /* default-constructed: state created; handle + tracer */
+__CPROVER_ensures(gh_cb0 != 0 ==> (gh_allocs == __CPROVER_old(gh_allocs) && H_CB(this_) == gh_cb0 && H_OBJ(this_) == gh_obj0 && TRACER_CHARGED(1, gh_c0, TRC(H_CB(this_)), THIS_ALIVE_WITH)))
 __CPROVER_ensures(ret->_owner._M_b._M_p == FUT_OF(H_OBJ(this_)))                                                     /* promise bound to the shared state */
 __CPROVER_ensures(IS_PENDING(H_OBJ(this_)) && TR_SELF(H_OBJ(this_), H_CB(this_)) && SI(H_CB(this_)))
 __CPROVER_ensures(gh_sub_ok == 1 && SLOT(H_OBJ(this_)) == TR_AW(H_OBJ(this_)) && TR_AW(H_OBJ(this_))->_next == 0 && TR_AW(H_OBJ(this_))->_resume_fn == tr_invoke)
